@@ -21,12 +21,17 @@ ASSUMPTIONS = ['reference model (60 lines) written from README sections "Handlin
                'equations" / "Parser for maths material"; blanks are compared per line after '
                'splitting into words']
 
-OPWORD = {'en': {'=': 'equal', '+': 'plus', '-': 'minus', '\\cdot': 'times', '\\times': 'times',
-                 '\\ne': 'equal', '\\le': 'equal', '/': 'over', '<': 'equal'},
-          'de': {'=': 'gleich', '+': 'plus', '-': 'minus', '\\cdot': 'mal', '\\times': 'mal',
-                 '\\ne': 'gleich', '\\le': 'gleich', '/': 'durch', '<': 'gleich'},
-          'ru': {'=': 'равно', '+': 'плюс', '-': 'минус', '\\cdot': 'раз', '\\times': 'раз',
-                 '\\ne': 'равно', '\\le': 'равно', '/': 'на', '<': 'равно'}}
+def _opword():
+    """operator words of the language settings of the tree under test"""
+    from vf.docs import OPTEXT
+    out = {}
+    for lang, tab in OPTEXT.items():
+        out[lang] = {op: tab.get(op, tab[None]) for op in
+                     ('=', '+', '-', '\\cdot', '\\times', '\\ne', '\\le', '/', '<')}
+    return out
+
+
+OPWORD = _opword()
 
 # section kinds: (source, parts); part = ('m', op, elem, punct) | ('t', text)
 #   op: leading operator or None; elem: has a maths element; punct: trailing . , ; : or ''
